@@ -49,12 +49,13 @@ def project(p):
             "z0": z0, "finals": sorted(tag(_v(s)) for s in p.final_states), "delta": sorted(delta)}
 
 
-def build(hist, spool="q", kpool="ZX", ymap=None):
-    """Execute the generator's history on a fresh PDA; returns (pda, spec value in tagged names)."""
+def build(hist, spool="q", kpool="ZX", ymap=None, extra_states=()):
+    """Execute the generator's history on a fresh PDA; returns (pda, spec value in tagged names).
+    extra_states: states declared through the constructor (they need no transition)."""
     sm, km = STATE_POOLS[spool], STACK_POOLS[kpool]
     ymap = ymap or {"a": "a", "b": "b"}
-    p = PDA()
-    spec = {"states": set(), "start": "none", "z0": "none", "finals": set(), "delta": []}
+    p = PDA(states=set(extra_states)) if extra_states else PDA()
+    spec = {"states": set(tag(x) for x in extra_states), "start": "none", "z0": "none", "finals": set(), "delta": []}
     for c in hist:
         op = c[0]
         if op == "set_start_state":
